@@ -921,7 +921,7 @@ func (t *Tokenizer) readQuotedIdentifier() (models.Token, error) {
 
 		if r == '\n' {
 			return models.Token{}, errors.UnterminatedStringError(
-				models.Location{Line: startPos.Line, Column: startPos.Column},
+				t.toSQLPosition(startPos),
 				string(t.input),
 			)
 		}
@@ -1054,6 +1054,12 @@ func (t *Tokenizer) readQuotedString(quote rune) (models.Token, error) {
 		if r == '\\' {
 			// Handle escape sequences
 			if err := t.handleEscapeSequence(&buf); err != nil {
+				// a backslash that ends the input leaves the literal
+				// unterminated: located, like every unterminated literal, at
+				// its opening quote
+				if t.pos.Index >= len(t.input) {
+					return models.Token{}, errors.UnterminatedStringError(t.toSQLPosition(startPos), string(t.input))
+				}
 				return models.Token{}, err
 			}
 			continue
